@@ -229,6 +229,35 @@ Definition o09_step (prev : mgr) (s : ostep) : bool :=
   | _, _ => true
   end.
 
+(* C01, manager side: a piece becomes owned only through the PieceDone of the peer it is assigned to, it is broadcast
+   as Have only then, the bitfield given to a new connection is exactly the owned set, and the extractor is started
+   only when every piece is owned *)
+Definition o01_step (prev : mgr) (s : ostep) : bool :=
+  match s_op s with
+  | OSet => true
+  | _ =>
+    let next := s_state s in
+    let all_have := forallb is_have (m_status next) in
+    let done_idx := match s_op s with
+                    | OCmd (CPieceDone a) => match pget (m_peers prev) a with Some p => p_piece_index p | None => None end
+                    | _ => None
+                    end in
+    (negb (existsb (fun x => match x with SpExtractor => true | _ => false end) (s_sp s)) || all_have)
+    && forallb (fun i => match nth_error (m_status prev) i, nth_error (m_status next) i with
+                         | Some st, Some st' => negb (is_have st') || is_have st || optN_eqb done_idx (Some (N.of_nat i))
+                         | _, _ => true
+                         end) (indices prev)
+    && forallb (fun b => match b with
+                         | BHave i => optN_eqb done_idx (Some i) && match nthN (m_status next) i with Some st => is_have st | None => false end
+                         | _ => true
+                         end) (s_bc s)
+    && match s_res s with
+       | XOk (RBitfield bits) => list_eqb Bool.eqb bits (map is_have (m_status prev))
+       | XPanic => false
+       | _ => true
+       end
+  end.
+
 (* ---- the run -------------------------------------------------------------------------------- *)
 Fixpoint run (which : N) (prod : bool) (prev : mgr) (prev_rx : list (addr * option N)) (steps : list ostep)
              (k o : bool) : bool * bool :=
@@ -239,6 +268,7 @@ Fixpoint run (which : N) (prod : bool) (prev : mgr) (prev_rx : list (addr * opti
       let o' := o && (if which =? 12 then (negb prod || o12_step prev prev_rx s)
                       else if which =? 13 then o13_step prev s
                       else if which =? 9 then o09_step prev s
+                      else if which =? 1 then o01_step prev s
                       else o14_step prev s) in
       match s_res s with
       | XPanic => (k', o')
@@ -256,3 +286,4 @@ Definition codes12 (cs : list case) : list N := map (code 12) cs.
 Definition codes13 (cs : list case) : list N := map (code 13) cs.
 Definition codes14 (cs : list case) : list N := map (code 14) cs.
 Definition codes09m (cs : list case) : list N := map (code 9) cs.
+Definition codes01m (cs : list case) : list N := map (code 1) cs.
